@@ -7,7 +7,8 @@ reg("C07", "Db stays a consistent table under edit histories",
          "harness/common/c07_db_invariants.hpp are read through public getters (oracles inv.<rule>) and (b) the whole table "
          "(live UIDs, column order, every cell, names, roles, counts, return values) is compared with a shadow table keyed "
          "by UID (oracles t.<what>); key = C07:<operation>:<rule>, one fixed key per known-defect input class; the first "
-         "witness of a key is delta-debugged to a short history; distinct = distinct (construction kind and options, "
+         "witness of a key is delta-debugged to a short history; the cases with index % 50 in 0..7 start from a small scripted "
+         "probe (one per open known-defect class) before going on at random, so every open key is reached in every run; distinct = distinct (construction kind and options, "
          "length bucket, set of operation families) signatures",
     level="exploration",
     require=dict(distinct=40,
